@@ -640,6 +640,13 @@ def typing_programs():
          "g": Fn(["x"], Block([Loop(Block([Expr(If(Bin("<", V("x"), I(0)), Block([Expr(Call("throw", S("neg")))]))),
                                             Expr(If(Bin("==", V("x"), I(0)), Block([Expr(Block([Ret(S("zero"))]))]))), Expr(Asg(V("x"), I(1), "-="))]))]), "str"),
          "main": Fn([], Block([Print(Call("f", I(3)), Call("g", I(2)))]))})
+    # a match without default arm is left when nothing matches, even if every arm diverges: what follows is reached
+    add("match_all_arms_diverge_no_default",
+        {"check": Fn(["x"], Block([Expr(Match(V("x"), [([I(1)], Block([Ret(I(1))])), ([I(2), I(3)], Block([Expr(Call("throw", S("two")))]))])), Print(S("after"))], I(5)), "int", ["int"]),
+         "main": Fn([], Block([Print(Call("check", I(1)), Call("check", I(4)))]))})
+    add("match_all_arms_diverge_with_default",
+        {"check": Fn(["x"], Block([], Match(V("x"), [([I(1)], Block([Ret(I(1))]))], Block([Ret(I(9))]))), "int", ["int"]),
+         "main": Fn([], Block([Print(Call("check", I(1)), Call("check", I(4)))]))})
     # impl blocks against the host's template FooFeature (capability light requires dim(percent: int) -> bool,
     # temperature requires set_temp(celsius: float), the two exclude each other) and trigger statements
     dev = ("$Device", "{ is_online: bool, current_brightness: int }", Obj(is_online=B(False), current_brightness=I(0)))
